@@ -199,14 +199,20 @@ fn pressure_sweep(rep: &Report, placement: &str) -> (u64, u64) {
     let count = Arc::new(Mutex::new(0u64));
     let cur = Arc::new(Mutex::new(String::new()));
     let (count2, cur2) = (count.clone(), cur.clone());
+    // real files (only text that can be read back from disk is evicted)
+    let sc = Scratch::new("c12p");
+    let base = sc.path().to_string_lossy().to_string();
+    for i in 0..n {
+        write_file(sc.path(), &format!("d{}/test_e.py", i), "def test_e(ev):\n    pass\n");
+    }
     let out = crate::seed::on_fresh_thread(move || {
         let db = Arc::new(FixtureDatabase::new());
-        db.analyze_file(PathBuf::from(format!("{}/conftest.py", ROOT)), "import pytest\n\n@pytest.fixture\ndef ev():\n    return 1\n");
+        db.analyze_file(PathBuf::from(format!("{}/conftest.py", base)), "import pytest\n\n@pytest.fixture\ndef ev():\n    return 1\n");
         let names = lock_names(&db);
         let body: vsched::Body = Box::new(move || {
             let text = "def test_e(ev):\n    pass\n";
             for i in 0..n {
-                let p = PathBuf::from(format!("{}/d{}/test_e.py", ROOT, i));
+                let p = PathBuf::from(format!("{}/d{}/test_e.py", base, i));
                 *cur2.lock().unwrap() = format!("analyze_file #{} (file cache holds {} entries)", i + 1, db.file_cache.len());
                 db.analyze_file(p.clone(), text);
                 *count2.lock().unwrap() += 1;
